@@ -35,6 +35,7 @@ type World struct {
 	maxInstr     int
 	solverKind   string
 	timeoutMs    int
+	fallbackMs   int
 
 	tier string
 	replayEvery int
